@@ -162,6 +162,56 @@ def _effective_thr(inp: Dict[str, Any]) -> int:
 ID_TAIL = re.compile(r'^((?:-text_region-\d+-\d+-\d+-\d+)*)-column-(\d+)-(\d+)-(\d+)-(\d+)$')
 
 
+# WAVE 5 — the id of a returned column.  C18 says of it only that it "is derived from the region or its parent": which
+# of the two the code takes, whether a left-over column's id passes through the id of the intermediate text region, and
+# which box numbers the suffix carries (the box at the time the id was made, or the final one) are not fixed by the
+# statement (the oracle reads it the same way: a base + ID_TAIL, any numbers).  The correspondence therefore compares
+# the ids of model and implementation at that level:
+#   * an id that reads as derived (the region's id or the parent's id followed by ID_TAIL) matches any id that reads as
+#     derived; an id that does not read as derived is compared verbatim;
+#   * within one result the derivation has to be consistent wherever the model's is: if all the model's column ids
+#     can be read as derived from ONE of the two bases, so must the implementation's (from either one);
+#   * everything else — which lines are in which column, every box, the number of columns — stays exact.
+
+def _id_bases(cid: Any, inp: Dict[str, Any]):
+    """the bases ('region', 'parent') the id can be read as derived from; None if from neither"""
+    if not isinstance(cid, str):
+        return None
+    cands = [('region', str(inp.get('rid')))]
+    if inp.get('parent') is not None:
+        cands.append(('parent', str(inp['parent'].get('id'))))
+    out = {name for name, bs in cands if cid.startswith(bs) and ID_TAIL.match(cid[len(bs):])}
+    return out or None
+
+
+def _id_level(res: Dict[str, Any], inp: Dict[str, Any]):
+    """(result with every derived id replaced by the token 'derived', whether one base explains all derived ids)"""
+    if 'ok' not in res:
+        return res, True
+    common = {'region', 'parent'}
+    cols = []
+    for c in res['ok']:
+        b = _id_bases(c['id'], inp)
+        if b is None:
+            cols.append(dict(c, id={'as-is': c['id']}))
+        else:
+            common &= b
+            cols.append(dict(c, id='derived'))
+    cols.sort(key=lambda c: (c['box'], c['lines'], str(c['id'])))
+    return {'ok': cols}, bool(common)
+
+
+def _cols_differ(inp: Dict[str, Any], impl_res: Dict[str, Any], model_res: Dict[str, Any]) -> Optional[str]:
+    i, i_one = _id_level(impl_res, inp)
+    m, m_one = _id_level(model_res, inp)
+    if i != m:
+        return f'impl={short(impl_res)} model={short(model_res)}'
+    if m_one and not i_one:
+        return (f'the column ids of one result are derived partly from the region and partly from its parent '
+                f'(the model\'s are not): impl={short(impl_res)} model={short(model_res)}')
+    return None
+
+
 class C18(Check):
     pid = 'C18'
     props_module = 'PagexmlModel.Props.C18'
@@ -192,7 +242,11 @@ class C18(Check):
                   'Histories (wave 4): every region OBJECT is split twice (second answer judged and compared with the first '
                   'and with the pure model; ids / boxes / get_lines() order of the region snapshotted before and after), '
                   'the translated region is split in between and the original input once more afterwards; '
-                  'find_column_gaps is asked again after a call with another threshold on the same lines.')
+                  'find_column_gaps is asked again after a call with another threshold on the same lines. '
+                  'Correspondence level (wave 5): lines per column, boxes and the number of columns are compared exactly; a '
+                  'column id is compared as "derived from the region or its parent" (the statement\'s words: either base, '
+                  'any suffix of the shape -text_region-…-column-x-y-w-h; consistently within a result where the model is), '
+                  'an id of any other shape verbatim.')
     assumptions = ['parse_derived_coords: the bounding box of the hull is the union of the input boxes (C09), no '
                    'QhullError since fc690f6 (sampled by the correspondence, also on zero-size boxes)',
                    'float comparison overlap/width > t agrees with overlap*q > p*width (t = p/q the decimal literal of the '
@@ -514,18 +568,20 @@ class C18(Check):
         if case.kind == 'gaps':
             return None if impl_out == model_out[0] else f'impl={short(impl_out)} model={short(model_out[0])}'
         for name, ans in zip(('base', 'moved'), model_out):
+            inp = case.input
             i, m = _strip_impl(impl_out[name]), _canon_model(ans)
-            if i != m:
-                return f'{name}: impl={short(i)} model={short(m)}'
+            d = _cols_differ(inp, i, m)
+            if d:
+                return f'{name}: {d}'
             # the pure model gives the same answer for the second call on the same region object
             if 'again' in impl_out[name]:
-                i = _strip_impl(impl_out[name]['again'])
-                if i != m:
-                    return f'{name}, second call on the same region: impl={short(i)} model={short(m)}'
+                d = _cols_differ(inp, _strip_impl(impl_out[name]['again']), m)
+                if d:
+                    return f'{name}, second call on the same region: {d}'
         if 'base_after' in impl_out:
-            i, m = _strip_impl(impl_out['base_after']), _canon_model(model_out[0])
-            if i != m:
-                return f'base, after another region was split: impl={short(i)} model={short(m)}'
+            d = _cols_differ(case.input, _strip_impl(impl_out['base_after']), _canon_model(model_out[0]))
+            if d:
+                return f'base, after another region was split: {d}'
         return None
 
     # ---------------------------------------------------------------- oracle
